@@ -28,15 +28,16 @@ VARIABLES upos,     \* items handed out by U
           kind,     \* kind[h]: "borrow" | "scope"
           par,      \* par[h]: 0 (U) or the handle it wraps
           alive,    \* alive[h]: the handle's generator has not ended
+          inblock,  \* inblock[h]: the `async with` block of scope handle h has not been left yet
           shut,     \* shut[h]: the handle was ended explicitly (aclose / a closing tool / leaving its
                     \*          scope): only then are asend/athrow cut off from the underlying iterator
           nops, last
-vars == <<upos, ustop, uclosed, nh, kind, par, alive, shut, nops, last>>
-View == <<upos, ustop, uclosed, nh, kind, par, alive, shut, nops>>
+vars == <<upos, ustop, uclosed, nh, kind, par, alive, inblock, shut, nops, last>>
+View == <<upos, ustop, uclosed, nh, kind, par, alive, inblock, shut, nops>>
 
 Init == /\ upos = 0 /\ ustop = 0 /\ uclosed = 0 /\ nh = 0
         /\ kind = [h \in H |-> "borrow"] /\ par = [h \in H |-> 0] /\ alive = [h \in H |-> FALSE]
-        /\ shut = [h \in H |-> FALSE]
+        /\ shut = [h \in H |-> FALSE] /\ inblock = [h \in H |-> FALSE]
         /\ nops = 0 /\ last = <<"init", 0, 0, "-">>
 
 Step == nops < MaxOps /\ nops' = nops + 1
@@ -45,7 +46,7 @@ Exists(h) == h = 0 \/ h \in 1..nh
 RECURSIVE Open(_)
 Open(h) == IF h = 0 THEN uclosed = 0 ELSE alive[h] /\ Open(par[h])
 \* scopes are left innermost first
-OpenScopes == {h \in 1..nh : kind[h] = "scope" /\ alive[h]}
+OpenScopes == {h \in 1..nh : kind[h] = "scope" /\ inblock[h]}
 Innermost == CHOOSE h \in OpenScopes : \A g \in OpenScopes : g <= h
 
 New(k, p) ==
@@ -53,6 +54,7 @@ New(k, p) ==
   /\ nh' = nh + 1
   /\ kind' = [kind EXCEPT ![nh + 1] = k] /\ par' = [par EXCEPT ![nh + 1] = p]
   /\ alive' = [alive EXCEPT ![nh + 1] = TRUE]
+  /\ inblock' = [inblock EXCEPT ![nh + 1] = (k = "scope")]
   /\ last' = <<k, nh + 1, p, "-">>
   /\ UNCHANGED <<upos, ustop, uclosed, shut>>
 
@@ -83,7 +85,7 @@ Next(h) ==
   /\ LET r == Pull(h, upos, ustop, alive) IN
      /\ upos' = r.upos /\ ustop' = r.ustop /\ alive' = r.alive
      /\ last' = <<"next", h, r.item, "-">>
-  /\ UNCHANGED <<uclosed, nh, kind, par, shut>>
+  /\ UNCHANGED <<uclosed, nh, kind, par, shut, inblock>>
 
 \* aclose() on a handle: ends a borrowed handle, does nothing to a scoped one
 Aclose(h) ==
@@ -91,7 +93,7 @@ Aclose(h) ==
   /\ alive' = IF kind[h] = "borrow" THEN [alive EXCEPT ![h] = FALSE] ELSE alive
   /\ shut' = IF kind[h] = "borrow" THEN [shut EXCEPT ![h] = TRUE] ELSE shut
   /\ last' = <<"aclose", h, 0, "-">>
-  /\ UNCHANGED <<upos, ustop, uclosed, nh, kind, par>>
+  /\ UNCHANGED <<upos, ustop, uclosed, nh, kind, par, inblock>>
 
 \* a library tool takes j items from h, pulls `over` more that it does not hand out, and
 \* closes its input when it is closed (tools own what they are given)
@@ -109,7 +111,7 @@ Tool(h, j, over) ==
      /\ alive' = IF kind[h] = "borrow" THEN [r.alive EXCEPT ![h] = FALSE] ELSE r.alive
      /\ shut' = IF kind[h] = "borrow" THEN [shut EXCEPT ![h] = TRUE] ELSE shut
      /\ last' = <<"tool", h, j, IF over = 0 THEN "islice" ELSE "zip">>
-  /\ UNCHANGED <<uclosed, nh, kind, par>>
+  /\ UNCHANGED <<uclosed, nh, kind, par, inblock>>
 
 \* asend() of an open handle goes to U directly (U is an async generator: it advances)
 Send(h) ==
@@ -119,7 +121,7 @@ Send(h) ==
      ELSE IF ~shut[h]
      THEN /\ ustop' = ustop + 1 /\ last' = <<"send", h, 0, "-">> /\ UNCHANGED upos
      ELSE /\ last' = <<"send", h, 0, "-">> /\ UNCHANGED <<upos, ustop>>    \* cut off: U sees nothing
-  /\ UNCHANGED <<uclosed, nh, kind, par, alive, shut>>
+  /\ UNCHANGED <<uclosed, nh, kind, par, alive, shut, inblock>>
 
 \* leaving the innermost `async with scoped_iter(...)` block (normally, by exception or by
 \* cancellation): the handle ends; then parent.aclose()
@@ -130,6 +132,7 @@ ExitScope(how) ==
                               ELSE IF x = p /\ kind[p] = "borrow" THEN FALSE ELSE alive[x]]
      /\ uclosed' = IF p = 0 THEN uclosed + 1 ELSE uclosed
      /\ shut' = [x \in H |-> shut[x] \/ x = h \/ (x = p /\ kind[p] = "borrow")]
+     /\ inblock' = [inblock EXCEPT ![h] = FALSE]
      /\ last' = <<"exit", h, 0, how>>
   /\ UNCHANGED <<upos, ustop, nh, kind, par>>
 
@@ -152,7 +155,7 @@ InOrder == upos <= DataLen
 \* a handle that ended stays ended and delivers nothing (by construction of Pull)
 
 EmitEdge == EdgeFile = "" \/
-  CSVWrite("%1$s", <<ToJson([f |-> [up |-> upos, us |-> ustop, uc |-> uclosed, nh |-> nh, kind |-> kind, par |-> par, alive |-> alive, shut |-> shut, n |-> nops],
+  CSVWrite("%1$s", <<ToJson([f |-> [up |-> upos, us |-> ustop, uc |-> uclosed, nh |-> nh, kind |-> kind, par |-> par, alive |-> alive, shut |-> shut, ib |-> inblock, n |-> nops],
                              a |-> last',
-                             t |-> [up |-> upos', us |-> ustop', uc |-> uclosed', nh |-> nh', kind |-> kind', par |-> par', alive |-> alive', shut |-> shut', n |-> nops']])>>, EdgeFile)
+                             t |-> [up |-> upos', us |-> ustop', uc |-> uclosed', nh |-> nh', kind |-> kind', par |-> par', alive |-> alive', shut |-> shut', ib |-> inblock', n |-> nops']])>>, EdgeFile)
 =============================================================================
